@@ -239,3 +239,5 @@ ASSUMPTIONS = [
 ]
 OUTSIDE = ['user subclasses overriding __call__ or clear without deferring to Handle',
            'concurrent access from several threads', 'histories longer than the bound']
+
+TECHNIQUE = 'bounded symbolic execution (symx/z3) of access/clear histories over all access paths and unusual loaded values'
